@@ -70,8 +70,12 @@ class CsrDecWorld(World):
                     regs.append({"w": w, "acc": rng.choice(["r", "w", "rw"]),
                                  "extra": rng.choice([0, 0, 1])})
                 sub = {"t": "mux", "aw": saw, "regs": regs}
+            nm_ = None if rng.chance(0.4) else f"w{depth}_{i}"
+            if rng.chance(0.1):
+                # structured names: an index next to a digit string, a name that contains "__"
+                nm_ = [["u", 0], ["u", "0"], "u__0", ["u__0"], ["u", 1]][i % 5]
             node["subs"].append({"node": sub,
-                                 "name": None if rng.chance(0.4) else f"w{depth}_{i}",
+                                 "name": nm_,
                                  "addr": ((rng.below(1 << aw) >> saw) << saw) if rng.chance(0.3)
                                  else None,
                                  "align_to": rng.range(0, 3) if rng.chance(0.1) else None,
@@ -82,6 +86,26 @@ class CsrDecWorld(World):
         kind = rng.wchoice([("stub", 6), ("flat", 4)])
         dw = rng.choice([4, 8, 16]) if kind == "stub" else 8
         aw = rng.range(2, 7) if not rng.chance(0.3) else rng.range(6, 9)
+        if kind == "stub" and rng.chance(0.02):
+            # far ends of the legal range: very many windows, or a very wide address with small
+            # windows at high explicit addresses
+            if rng.chance(0.5):
+                n = rng.range(65, 140)
+                tree = {"t": "dec", "aw": 9, "al": 0, "omit": 0, "bad_add": None, "mid": None,
+                        "mid_at": 0, "own_map": 0,
+                        "subs": [{"node": {"t": "leaf", "aw": 1}, "name": f"w{i}", "addr": None,
+                                  "align_to": None, "readd": 0} for i in range(n)]}
+            else:
+                aw = rng.range(55, 64)
+                subs = []
+                for i in range(rng.range(2, 4)):
+                    saw = rng.range(1, 4)
+                    a = ((1 << (aw - 1)) | (rng.bits(aw - 1) & ~((1 << 12) - 1)) | (i << 6)) >> saw << saw
+                    subs.append({"node": {"t": "leaf", "aw": saw}, "name": f"w{i}", "addr": a,
+                                 "align_to": None, "readd": 0})
+                tree = {"t": "dec", "aw": aw, "al": 0, "omit": 0, "bad_add": None, "mid": None,
+                        "mid_at": 0, "own_map": 0, "subs": subs}
+            return {"kind": kind, "dw": dw, "tree": tree, "hwseed": rng.bits(32)}
         return {"kind": kind, "dw": dw, "tree": self._gen_tree(rng, aw, 0, kind),
                 "hwseed": rng.bits(32)}
 
@@ -165,7 +189,7 @@ class CsrDecWorld(World):
             try:
                 if sc.get("align_to") is not None:
                     dec.align_to(sc["align_to"])
-                dec.add(bus, name=sc["name"],
+                dec.add(bus, name=tuple(sc["name"]) if isinstance(sc["name"], list) else sc["name"],
                         **({"addr": sc["addr"]} if sc.get("addr") is not None else {}))
             except ValueError:
                 continue
